@@ -10,6 +10,8 @@ import MilaModel.Model.Lz
 import MilaModel.Spec.LzStream
 import MilaModel.Lemmas.LzDecode
 import MilaModel.Lemmas.LzDecodeErr
+import MilaModel.Lemmas.LzParse
+import MilaModel.Lemmas.LzEncode
 
 namespace Mila.Props.C11
 open Mila Mila.Lz Mila.Spec.Lz
@@ -23,6 +25,14 @@ bits, 32-bit extended header — is decoded to exactly the data it encodes. -/
 theorem decode_conforming (ext : Bool) (toks : List Tok) (s : Bytes) (h : Conforms ext toks s) :
     decompressLz s = .ok (expand toks) :=
   decompressLz_encodes ext _ toks s h.2.1 h.1 (tsize_eq_expand_size toks) h.2.2
+
+/-- Stated with the specification's encoder: for every valid token list and every choice of the
+unused flag bits, the decoder returns the expansion of the encoded stream (so `decode_conforming`
+is not vacuous for any valid token list). -/
+theorem decode_encode (ext : Bool) (junk : UInt8) (toks : List Tok) (hv : Valid ext toks)
+    (hb : (expand toks).size < (if ext then 2 ^ 32 else 2 ^ 24)) :
+    decompressLz (encode ext junk toks) = .ok (expand toks) :=
+  decode_conforming ext toks _ (encode_conforms ext junk toks hv hb)
 
 /-- The LZ10 entry point and `CompressionFormat::LZ10` decode every conforming stream. -/
 theorem lz10_decompress_conforming (ext : Bool) (toks : List Tok) (s : Bytes)
@@ -156,6 +166,15 @@ theorem decode_total (s : Bytes) :
         · have := h1 (if b0 = 0x13 then List.drop 4 (b0 :: r) else b0 :: r)
           split <;> simp_all
   exact ⟨h1 s, h2, h3, fun fmt => by cases fmt <;> simp [Format.decompress, h2, h3]⟩
+
+/-- The independent parser used as oracle by the correspondence stream is sound for the grammar:
+whatever it accepts is a conforming stream of the tokens it returns, and therefore the decoder
+model returns exactly the parser's own expansion on it. -/
+theorem parser_accepts_conforming (s : Bytes) (ext : Bool) (n : Nat) (toks : List Tok)
+    (h : parse s = .ok (ext, n, toks)) :
+    Conforms ext toks s ∧ (expand toks).size = n ∧ decompressLz s = .ok (expand toks) := by
+  obtain ⟨hc, hn⟩ := parse_sound s ext n toks h
+  exact ⟨hc, hn, decode_conforming ext toks s hc⟩
 
 /-! Non-vacuity: a concrete conforming LZ10 stream (literal `a`, then an overlapping reference of
 length 3 at displacement 1, junk in the unused flag bits) and a concrete bad reference. -/
